@@ -114,7 +114,7 @@ func (c01Suite) Gen(rng *Rng, tier string, w *bufio.Writer, stats *Stats) {
 		name string
 		qs   []string
 	}{{"suffix", focusedSuffixShapes()}, {"aggregate", focusedAggregateShapes()}, {"agg-traversal", focusedAggTraversalShapes()},
-		{"collect-membership", focusedCollectMembershipShapes()}} {
+		{"collect-membership", focusedCollectMembershipShapes()}, {"path-predicate", focusedPathPredicateShapes()}, {"string-literal", focusedStringLiteralShapes()}} {
 		for _, q := range fam.qs {
 			emitFixedSeed("focused:"+fam.name, q)
 			stats.Inc("focused." + fam.name)
